@@ -508,7 +508,8 @@ int _vnadata_load_npd(vnadata_internal_t *vdip, FILE *fp, const char *filename)
 			FIELD(&nss, 0));
 		goto out;
 	    }
-	    if (vnadata_set_format(vdp, FIELD(&nss, 1)) == -1) {
+	    if (_vnadata_set_format(vdp, FIELD(&nss, 1),
+			VNAERR_SYNTAX) == -1) {
 		goto out;
 	    }
 	    parameter_line = nss.nss_line;
